@@ -16,6 +16,12 @@ FLOORS = {
               "cases[msl=1]": 40, "inner_intervals_evaluated": 100000, "threshold_pairs": 150},
     "thorough": {"distinct_nontrivial": 800, "table_rows_checked": 40000},
 }
+ANCHORS = [
+    "skchange.anomaly_detectors.circular_binseg.make_anomaly_intervals",
+    "skchange.anomaly_detectors.circular_binseg.run_circular_binseg",
+    "skchange.anomaly_detectors.circular_binseg.greedy_anomaly_selection",
+    "skchange.anomaly_detectors.circular_binseg.CircularBinarySegmentation._tune_threshold",
+]
 LEVEL = "exploration"
 RULE = (
     "case = CircularBinarySegmentation(score in {default L2Cost, L2Cost, GaussianVarCost, "
